@@ -42,6 +42,9 @@ def _h(x):
     return x
 
 
+core.HOLD_HOOK = _h
+
+
 def scramble(held):
     """what a caller may do with its own lists / dicts after the pipeline was built: change them"""
     n = 0
